@@ -22,6 +22,6 @@ CONFIG = {
         "writes to the real stdout by code called from Serve before the stdout swap (other than Serve's own statements) are covered by the run only",
     ],
     "timeout": {"quick": 300, "thorough": 900},
-    "level_text": "Lean theorems over an executable model of Serve's cookie gate, event order and handshake-line printer (Model/Serve.lean): the gate proceeds iff key and value are non-empty and the environment holds exactly the value (gate_iff; unset / different / prefix / suffix / case-changed all exit 1), a refused launch's trace is exactly [exit 1] (no listener, no line), a served launch listens and initialises before its single stdout write, the line has exactly 6 fields, 7 iff the mux variable is non-empty (line_field_count), and the printed line is accepted by the C01 client model with exactly the printed values (print_parse_roundtrip, using atoi\u2218itoa and trimSpace lemmas) \u2014 for all cookies, environments, versions, addresses without '|', certificates. Statement order, format string, operands and the seventh-field guard are re-extracted from server.go on every run and re-proved; ~94 real plugin launches per run compare exit status, raw first line, further stdout output, socket-dir listing and an immediate dial of the announced address with the model. Eighth round: a binary built on ServeMux started by hand, every kind of command line x cookie: no output, exit status 1 (C16.servemux).",
+    "level_text": "Lean theorems over an executable model of Serve's cookie gate, event order and handshake-line printer (Model/Serve.lean): the gate proceeds iff key and value are non-empty and the environment holds exactly the value (gate_iff; unset / different / prefix / suffix / case-changed all exit 1), a refused launch's trace is exactly [exit 1] (no listener, no line), a served launch listens and initialises before its single stdout write, the line has exactly 6 fields, 7 iff the mux variable is non-empty (line_field_count), and the printed line is accepted by the C01 client model with exactly the printed values (print_parse_roundtrip, using atoi\u2218itoa and trimSpace lemmas) \u2014 for all cookies, environments, versions, addresses without '|', certificates. Statement order, format string, operands and the seventh-field guard are re-extracted from server.go on every run and re-proved; ~94 real plugin launches per run compare exit status, raw first line, further stdout output, socket-dir listing and an immediate dial of the announced address with the model. Eighth round: a binary built on ServeMux started by hand, every kind of command line x cookie: no output, exit status 1 (C16.servemux). Ninth round: a socket path just inside the length limit of a Unix socket address is announced as the address that accepts (C16.deep-socket-dir); the refusal when even the warning cannot be written (stderr on /dev/full) is still exit status 1 (C16.refusal-stderr-full).",
     "level_note": "Full strength on the model. Assumes '|' does not occur in the socket path (stated as hypothesis). The scanner-level composition (first token of real stdout) is covered by C01's Scanner model, not restated here. Listener-before-line is observed by dialling the announced address the moment the line is read.",
 }
